@@ -21,7 +21,7 @@ SPEC = dict(
     assumptions=["expected message = template with placeholders replaced textually (own implementation)",
                  "templates contain no braces other than documented placeholders; OLD/NEW occur as separate words",
                  "real git: only messages that git's own whitespace/comment clean-up leaves unchanged are read back"],
-    required=["real_git_leading_dash_paths", "real_git_push_runs", "fake_git_runs", "fake_hg_runs", "real_git_runs", "k12_evaluations", "class:squote", "class:dquote",
+    required=["real_git_leading_dash_paths", "real_git_push_runs", "real_git_push_from_branch_tracking_a_local_branch", "fake_git_runs", "fake_hg_runs", "real_git_runs", "k12_evaluations", "class:squote", "class:dquote",
               "class:backslash", "class:newline", "class:leading-dash", "class:dollar", "class:backtick",
               "hostile_paths_checked", "templates_from_config", "config_templates_with_OLD_NEW_words",
               "templates_from_setup_cfg", "ini_templates_with_percent", "empty_tag_message_from_config"],
@@ -348,6 +348,10 @@ def run_real(ctx, case):
             git(d, "init", "-q", "--bare", remote)
             git(d, "remote", "add", "origin", remote)
             git(d, "push", "-q", "origin", "main")
+            if R.random() < 0.3:
+                # the current branch tracks a LOCAL branch (upstream remote "."): the push still has to reach origin
+                git(d, "checkout", "-q", "-b", "feature", "--track", "main")
+                ctx.count("real_git_push_from_branch_tracking_a_local_branch")
             pre = R.choice(["[ci/skip] ", "[release/NEW] ", "[x/y] ", ""])
             cm = pre + cm
             want_cm = expand(cm, OLD, NEW, OLD_PEP, NEW_PEP)
@@ -386,7 +390,8 @@ def run_real(ctx, case):
                           case=case)
         if remote:
             rtags = git(remote, "tag", "--list").split()
-            rhead = git(remote, "rev-parse", "main", check=False).strip()
+            branch = git(d, "rev-parse", "--abbrev-ref", "HEAD").strip()
+            rhead = git(remote, "rev-parse", branch, check=False).strip()
             if rtags != [NEW] or rhead != git(d, "rev-parse", "HEAD").strip():
                 ctx.violation("other:push_did_not_reach_origin", f"{args}: tags on origin {rtags}, origin/main {rhead[:8]}",
                               case=case)
